@@ -20,6 +20,65 @@ def main(argv=None):
     from props import chanworld
     resc = chanworld.run(ck, [("channel.HTTPChannel.received", "IO")])
     world.report(ck, resc, select=lambda n: "C11-no-close-decision-while-parsing" in n or "received@IO/coverage" in n or "received@IO/raises" in n)
+    # termination of the gates themselves: a pattern of the form (X+)* or (X*)* -- an unbounded repetition whose whole body (or a whole
+    # alternative of it) is again an unbounded repetition -- makes re backtrack exponentially on a non-matching input (the parser "hangs"
+    # instead of refusing).  Structural, sufficient condition only; the general question (is every gate linear) is NOT decided.
+    import re as _re
+    try:
+        from re import _parser as _sp, _constants as _sc
+    except ImportError:
+        import sre_parse as _sp, sre_constants as _sc
+
+    def unbounded(item):
+        op, av = item
+        return op in (_sc.MAX_REPEAT, _sc.MIN_REPEAT) and av[1] == _sc.MAXREPEAT
+
+    def whole_body_repeats(seq):
+        items = list(seq)
+        if len(items) != 1:
+            return False
+        op, av = items[0]
+        if unbounded(items[0]):
+            return True
+        if op == _sc.SUBPATTERN:
+            return whole_body_repeats(av[3])
+        if op == _sc.BRANCH:
+            return any(whole_body_repeats(alt) for alt in av[1])
+        return False
+
+    def nested(seq):
+        for op, av in seq:
+            if op in (_sc.MAX_REPEAT, _sc.MIN_REPEAT):
+                if av[1] == _sc.MAXREPEAT and whole_body_repeats(av[2]):
+                    return True
+                if nested(av[2]):
+                    return True
+            elif op == _sc.SUBPATTERN:
+                if nested(av[3]):
+                    return True
+            elif op == _sc.BRANCH:
+                if any(nested(alt) for alt in av[1]):
+                    return True
+        return False
+    bad = []
+    for modname in ("rfc7230", "parser", "utilities"):
+        mod = ck.repo.module(modname)
+        for nm, v in sorted(vars(mod).items()):
+            if hasattr(v, "pattern") and hasattr(v, "groupindex"):
+                try:
+                    if nested(_sp.parse(v.pattern)):
+                        bad.append("%s.%s" % (modname, nm))
+                except Exception:
+                    pass
+    if bad:
+        w = bad[0]
+        ck.fail("rfc7230/structural:no-repetition-of-a-repetition-in-the-gates", "pattern:" + w,
+                "compiled pattern %s repeats a sub-pattern that is itself an unbounded repetition: exponential backtracking on a non-matching token (the parser hangs instead of refusing)" % ", ".join(bad),
+                replay={"patterns": bad, "label": "structural"}, reproduced=False)
+        ck.ob("rfc7230/structural:no-repetition-of-a-repetition-in-the-gates", "violated", backend="ast", kind="structural")
+    else:
+        ck.ob("rfc7230/structural:no-repetition-of-a-repetition-in-the-gates", "discharged", backend="ast", kind="structural",
+              clause="no compiled pattern of rfc7230 / parser / utilities has an unbounded repetition whose whole body (or a whole alternative) is an unbounded repetition")
     facts = []
     for r in res:
         facts.extend(r.get("regex_facts", []))
